@@ -295,6 +295,9 @@ class GeoIndex:
         ])
 
         # Return the distances in kilometers
+        if self.metric == "haversine":
+            # The haversine metric returns angles in radians:
+            distances *= earth_radius
         distances /= 1000.
 
         if self.shuffler is None:
